@@ -14,9 +14,11 @@ import (
 	"fmt"
 	"os"
 	"path/filepath"
+	"runtime"
 	"runtime/debug"
 	"strings"
 	"sync"
+	"sync/atomic"
 	"time"
 
 	"github.com/rs/zerolog"
@@ -54,6 +56,15 @@ type Txn struct {
 	// before (APIStream.StoreRequest, what routing does for a full request), so the
 	// response-typed stream has a request object; otherwise GetRequest() is nil.
 	StoredReq bool `json:"stored_request,omitempty"`
+	// Spoe: the transaction enters through the gateway's own SPOE entry
+	// (routing.processRequest / processResponse: SPOE message -> readRequestArgs /
+	// readResponseArgs -> utils.ParseHeaders -> runner.RunFlow -> getSPOEReqActions /
+	// getSPOERespActions), not through Stream.ExecuteFlow directly.  RawHdr is the
+	// header block as the proxy hands it over ("hex:<digits>" = raw bytes); Headers is
+	// not used.  Full: the message is lunar-on-full-request / lunar-on-full-response.
+	Spoe   bool   `json:"spoe,omitempty"`
+	RawHdr string `json:"raw_headers,omitempty"`
+	Full   bool   `json:"full_message,omitempty"`
 }
 
 // TxnResult: what the engine did with one transaction.
@@ -289,7 +300,10 @@ func childMain(batchFile, resultFile string) {
 		panic(err)
 	}
 	w := bufio.NewWriter(f)
+	var emitMu sync.Mutex
 	emit := func(l line) {
+		emitMu.Lock()
+		defer emitMu.Unlock()
 		b, _ := json.Marshal(l)
 		w.Write(b)
 		w.WriteByte('\n')
@@ -409,13 +423,53 @@ func childMain(batchFile, resultFile string) {
 				continue
 			}
 			emit(line{ID: j.ID, What: "txn-start", Txn: ti})
+			// a transaction that has not returned after txnWatchdog is reported with the place it
+			// is blocked in (the parent's no-progress limit would only say "no answer"); the
+			// process ends, the parent gives the remaining work to a fresh one
+			var finished atomic.Bool
+			wd := time.AfterFunc(txnWatchdog, func() {
+				if finished.Load() {
+					return
+				}
+				buf := make([]byte, 4<<20)
+				buf = buf[:runtime.Stack(buf, true)]
+				emit(line{ID: j.ID, What: "txn-stuck", Txn: ti, Text: stuckSite(buf)})
+				if !finished.Load() {
+					os.Exit(4)
+				}
+			})
 			r := runTxn(st, &j.Txns[ti])
+			finished.Store(true)
+			wd.Stop()
 			emit(line{ID: j.ID, What: "txn", Txn: ti, Res: &r})
 		}
 		emit(line{ID: j.ID, What: "done"})
 	}
 	w.Flush()
 	f.Close()
+}
+
+// txnWatchdog: a transaction not back after this long is reported as stuck (legitimate waits -
+// Queue on the real clock - are about a second)
+const txnWatchdog = 20 * time.Second
+
+// stuckSite: in a dump of all goroutines, the first lunar/ frame of the goroutine that runs the
+// transaction (the one with main.runTxn on its stack) = where the transaction is blocked
+func stuckSite(dump []byte) string {
+	for _, g := range strings.Split(string(dump), "\n\n") {
+		if !strings.Contains(g, "main.runTxn") && !strings.Contains(g, "main.runSpoeTxn") {
+			continue
+		}
+		for _, l := range strings.Split(g, "\n") {
+			if strings.HasPrefix(l, "lunar/") {
+				if i := strings.LastIndex(l, "("); i > 0 {
+					l = l[:i]
+				}
+				return l
+			}
+		}
+	}
+	return "?"
 }
 
 // pathOf: the path HAProxy reports next to url = host + path
@@ -449,6 +503,9 @@ func dirName(t publictypes.StreamType) string {
 func runTxn(st *streams.Stream, t *Txn) TxnResult {
 	txnSeq++
 	id := fmt.Sprintf("t%d", txnSeq)
+	if t.Spoe {
+		return runSpoeTxn(st, t, id)
+	}
 	events := []Event{}
 	var api publictypes.APIStreamI
 	acts := &stream_config.StreamActions{}
